@@ -108,6 +108,9 @@ def s1(ck, an):
     for f in an.functions():
         for e in an.fa(f).effects():
             if e.attr == "_queue_actions":
+                if e.kind == "R" and f.qual in new_api_functions(an) and not any(e2.attr == "_queue_actions" and e2.kind != "R" for e2 in an.fa(f).effects()):
+                    ck.ok("OWN", "S1.queue-owner", f.short, e.loc, f"{f.short}: a read-only accessor new to the inventory that nothing reviewed reaches", construct=stmt_text(e.node))
+                    continue
                 ck.check(all(g.short in allowed for g in an.attributed(f)), "OWN", "S1.queue-owner", f.short, e.loc, f"queue touched by {f.short}", f"{f.short} touches the action queue; allowed: {sorted(allowed)}", construct=stmt_text(e.node))
 
 
